@@ -156,17 +156,53 @@ where
     let mut wr = std::io::BufWriter::new(std::fs::File::create(&out).expect("create out"));
     let prev = std::panic::take_hook();
     std::panic::set_hook(Box::new(|_| {}));
+    // Watchdog: a case that does not return within the deadline (a wedged decoder, a
+    // loop that consumes nothing) cannot be interrupted from inside; the watchdog records
+    // its index in <VERIF_OUT>.hang and ends the process with status 97.  The driver
+    // reports that case as `[-2]` and runs the remaining cases in a new process.
+    static CUR: std::sync::atomic::AtomicU64 = std::sync::atomic::AtomicU64::new(u64::MAX);
+    static SINCE_MS: std::sync::atomic::AtomicU64 = std::sync::atomic::AtomicU64::new(0);
+    let t0 = std::time::Instant::now();
+    let deadline_ms: u64 = std::env::var("VERIF_CASE_DEADLINE_MS")
+        .ok()
+        .and_then(|s| s.parse().ok())
+        .unwrap_or(60_000);
+    {
+        let hang = format!("{}.hang", out);
+        let _ = std::fs::remove_file(&hang);
+        std::thread::spawn(move || loop {
+            std::thread::sleep(std::time::Duration::from_millis(250));
+            let cur = CUR.load(std::sync::atomic::Ordering::SeqCst);
+            if cur == u64::MAX {
+                continue;
+            }
+            let since = SINCE_MS.load(std::sync::atomic::Ordering::SeqCst);
+            let now = t0.elapsed().as_millis() as u64;
+            if now.saturating_sub(since) > deadline_ms && CUR.load(std::sync::atomic::Ordering::SeqCst) == cur {
+                let _ = std::fs::write(&hang, format!("{}\n", cur));
+                std::process::exit(97);
+            }
+        });
+    }
+    let mut idx: u64 = 0;
     for line in rd.lines() {
         let line = line.expect("read line");
         if line.trim().is_empty() {
             continue;
         }
         let v = Val::parse(&line).expect("parse case");
+        SINCE_MS.store(t0.elapsed().as_millis() as u64, std::sync::atomic::Ordering::SeqCst);
+        CUR.store(idx, std::sync::atomic::Ordering::SeqCst);
+        idx += 1;
         let r = std::panic::catch_unwind(|| f(&v));
+        CUR.store(u64::MAX, std::sync::atomic::Ordering::SeqCst);
         match r {
             Ok(o) => writeln!(wr, "{}", o).unwrap(),
             Err(_) => writeln!(wr, "[-1]").unwrap(),
         }
+        // every finished case is on disk before the next one starts (the watchdog may end
+        // the process during the next one)
+        wr.flush().unwrap();
     }
     wr.flush().unwrap();
     std::panic::set_hook(prev);
